@@ -859,6 +859,27 @@ def _to_c_expr(
                 return _fold([emit(arg) for arg in n.args])
             if n.keywords:
                 raise ValueError("unsupported keyword arguments in call")
+            if ctx is not None and fname in ctx.get("function_sources", {}):
+                # record the argument types of this call site so the helper gets a
+                # variant whose parameters can hold them (not only calls on the
+                # right-hand side of an assignment)
+                _infer_expr_type(
+                    n,
+                    ctx.get("var_types", {}),
+                    ctx.get("functions", {}),
+                    ctx.get("function_param_types", {}),
+                    ctx.get("function_param_orders", {}),
+                    ctx,
+                )
+                # a float argument is a C++ double: make it a float so that it selects
+                # the float variant when int and float variants of the helper coexist
+                args_rendered = ", ".join(
+                    f"static_cast<float>({emit(arg)})"
+                    if _infer_arg_type(arg) == "float"
+                    else emit(arg)
+                    for arg in n.args
+                )
+                return f"{fname}({args_rendered})"
             args_rendered = ", ".join(emit(arg) for arg in n.args)
             return f"{fname}({args_rendered})"
 
